@@ -3,8 +3,12 @@ package main
 
 import (
 	"encoding/json"
+	"errors"
 	"fmt"
+	"io"
 	"math/big"
+	"runtime"
+	"runtime/debug"
 	"time"
 
 	"github.com/markkurossi/mpc/circuit"
@@ -23,6 +27,7 @@ type cs struct {
 	SBits  int          `json:"sbits"` // forced permute bits of the input wires
 	Input  int          `json:"input"` // -1: all inputs
 	Reuse  bool         `json:"reuse"` // garble, release, garble again before checking
+	Hist   string       `json:"hist,omitempty"`
 }
 
 var rowsByOp = map[circuit.Operation]int{circuit.XOR: 0, circuit.XNOR: 0, circuit.AND: 2, circuit.OR: 3, circuit.INV: 1}
@@ -226,6 +231,7 @@ func work(ctx *runner.Ctx) {
 		}
 	}
 	families(ctx)
+	histories(ctx)
 }
 
 // deterministic families beyond the exhaustive size.
@@ -297,7 +303,198 @@ func replay(ctx *runner.Ctx, raw json.RawMessage) {
 	if err := json.Unmarshal(raw, &k); err != nil {
 		panic(err)
 	}
+	if k.Hist != "" {
+		runHist(ctx, k)
+		return
+	}
 	runCase(ctx, k, nil)
+}
+
+type failingReader struct {
+	r      io.Reader
+	calls  int
+	failAt int
+}
+
+func (f *failingReader) Read(p []byte) (int, error) {
+	f.calls++
+	if f.calls >= f.failAt {
+		return 0, errors.New("injected randomness failure")
+	}
+	return f.r.Read(p)
+}
+
+type live struct {
+	g   *circuit.Garbled
+	key []byte
+}
+
+// histAlphabet: G a/b = Garble with key A/B written into ONE shared key buffer; F = Garble with key A in a
+// fresh buffer; X = Garble whose randomness source fails on its 2nd read (must return an error);
+// r/R = Release oldest/newest live garbling (twice: Release is idempotent); e/E = evaluate oldest/newest
+// live garbling on every input and compare every wire with the truth table.
+var histAlphabet = []byte("abFXrReE")
+
+// runHist executes one operation history on one circuit value, single-threaded.
+func runHist(ctx *runner.Ctx, k cs) {
+	old := runtime.GOMAXPROCS(1)
+	gc := debug.SetGCPercent(-1)
+	defer func() {
+		debug.SetGCPercent(gc)
+		runtime.GOMAXPROCS(old)
+	}()
+	c := k.D.Build()
+	nin := k.D.NumIn()
+	shared := make([]byte, k.KeyLen)
+	fill := func(buf []byte, v byte) {
+		for i := range buf {
+			buf[i] = byte(7*i+1) ^ v
+		}
+	}
+	var lives []*live
+	fail := func(site, what string) {
+		ctx.Violate("history."+site, what+" :: history "+k.Hist+" on "+k.D.String(), k)
+	}
+	seed := k.Seed
+	check := func(l *live, which string) bool {
+		in := make([]bool, nin)
+		wires := make([]ot.Label, c.NumWires)
+		for x := 0; x < 1<<nin; x++ {
+			for i := range in {
+				in[i] = x>>i&1 == 1
+			}
+			ref, _ := bitsim.Eval(c, in)
+			for i := range wires {
+				wires[i] = ot.Label{}
+			}
+			if len(l.g.Wires) != c.NumWires {
+				fail("live-garbling-lost", which+" garbling lost its wires while still unreleased")
+				return false
+			}
+			for i := 0; i < nin; i++ {
+				wires[i] = circuit.LabelForBit(l.g.Wires[i], in[i])
+			}
+			ctx.Eval(1)
+			if err := c.Eval(l.key, wires, l.g.Gates); err != nil {
+				fail("eval-error", which+": "+err.Error())
+				return false
+			}
+			for w := nin; w < c.NumWires; w++ {
+				if !wires[w].Equal(circuit.LabelForBit(l.g.Wires[w], ref[w])) {
+					fail("label", fmt.Sprintf("%s live garbling: input %b wire %d evaluates to a wrong label", which, x, w))
+					return false
+				}
+			}
+		}
+		return true
+	}
+	for pos, op := range []byte(k.Hist) {
+		switch op {
+		case 'a', 'b', 'F':
+			seed++
+			var key []byte
+			if op == 'F' {
+				key = make([]byte, k.KeyLen)
+				fill(key, 0)
+			} else {
+				key = shared
+				fill(key, map[byte]byte{'a': 0, 'b': 0x5a}[op])
+			}
+			g, err := c.Garble(drbg.New(seed), key)
+			if err != nil {
+				fail("garble-error", err.Error())
+				return
+			}
+			// the evaluator side keeps its own copy of the key, as in the protocol
+			lives = append(lives, &live{g: g, key: append([]byte(nil), key...)})
+		case 'X':
+			seed++
+			fr := &failingReader{r: drbg.New(seed), failAt: 2}
+			if _, err := c.Garble(fr, shared[:k.KeyLen]); err == nil {
+				fail("error-not-reported", "Garble succeeded although its randomness source failed")
+				return
+			}
+		case 'r', 'R':
+			if len(lives) == 0 {
+				continue
+			}
+			i := 0
+			if op == 'R' {
+				i = len(lives) - 1
+			}
+			lives[i].g.Release()
+			lives[i].g.Release()
+			lives = append(lives[:i], lives[i+1:]...)
+		case 'e', 'E':
+			if len(lives) == 0 {
+				continue
+			}
+			i, which := 0, "oldest"
+			if op == 'E' {
+				i, which = len(lives)-1, "newest"
+			}
+			if !check(lives[i], fmt.Sprintf("step %d: %s", pos, which)) {
+				return
+			}
+		}
+	}
+	// every garbling still live must still be valid
+	for i, l := range lives {
+		if !check(l, fmt.Sprintf("end: live #%d", i)) {
+			return
+		}
+	}
+	ctx.Outcome(fmt.Sprintf("history-ok/live-at-end=%d", len(lives)))
+}
+
+func histories(ctx *runner.Ctx) {
+	descs := []circgen.Desc{
+		{In: []int{2}, Out: []int{1}, Gates: []circgen.G{{2, 0, 1}, {3, 0, 2}, {4, 3, 0}}},
+		{In: []int{2}, Out: []int{2}, Gates: []circgen.G{{0, 0, 1}, {1, 0, 2}}},
+	}
+	maxLen := 5
+	if ctx.Quick() {
+		maxLen = 4
+	}
+	idx := 0
+	n := len(histAlphabet)
+	for l := 1; l <= maxLen; l++ {
+		total := 1
+		for i := 0; i < l; i++ {
+			total *= n
+		}
+		for x := 0; x < total; x++ {
+			h := make([]byte, l)
+			v := x
+			garbles := 0
+			for i := range h {
+				h[i] = histAlphabet[v%n]
+				v /= n
+				if h[i] == 'a' || h[i] == 'b' || h[i] == 'F' {
+					garbles++
+				}
+			}
+			if garbles == 0 {
+				continue
+			}
+			for di, d := range descs {
+				idx++
+				if !ctx.Mine(idx) {
+					continue
+				}
+				if idx&0xff == 0 && ctx.Expired() {
+					return
+				}
+				k := cs{D: d, KeyLen: []int{16, 24, 32}[(x+di)%3], Seed: uint64(ctx.Seed) + uint64(x)*16, Hist: string(h), Input: -1}
+				runHist(ctx, k)
+				ctx.NontrivialN(1)
+				if idx%20000 == 0 {
+					ctx.Sample(k)
+				}
+			}
+		}
+	}
+	ctx.Note(fmt.Sprintf("histories: every sequence of <= %d operations over {Garble keyA/keyB in one shared buffer, Garble fresh buffer, Garble with failing randomness, Release oldest/newest (twice), Eval oldest/newest} with >= 1 garble, on 2 circuits", maxLen))
 }
 
 func main() {
